@@ -304,6 +304,32 @@ def run(prog: Program, res: Result) -> None:  # noqa: PLR0912, PLR0915
         for c in appends:
             n3b += 1
             d, _ = self_atoms(ps, c)
+            # a name declared by a constant (`Identifier("forloop", …)`): the render must store that very key under conditions on the tag's
+            # own fields only - a store that also depends on the run-time value (`isinstance(val, Sequence)`) leaves the name unbound for
+            # other values, and the partial then reads it from the globals
+            const_names = [x.args[0].value for x in ast.walk(c.args[0]) if isinstance(x, ast.Call) and (dotted(x.func) or "").endswith("Identifier") and x.args and isinstance(x.args[0], ast.Constant) and isinstance(x.args[0].value, str)]
+            if const_names:
+                cname = const_names[0]
+                problems_c: list[str] = []
+                found_store = False
+                for m in renders:
+                    for st_ in ast.walk(m.node):
+                        if isinstance(st_, ast.Assign) and len(st_.targets) == 1 and isinstance(st_.targets[0], ast.Subscript) and isinstance(st_.targets[0].slice, ast.Constant) and st_.targets[0].slice.value == cname:
+                            found_store = True
+                            value_conds = [o for t_, pol_ in _cond_path(m.module, m.node, st_) for o, f_ in _cond_atoms(t_, pol_) if not o.startswith("self.")]
+                            if value_conds:
+                                problems_c.append(f"{m.name} stores [{cname!r}] only under a test of run-time values ({sorted(set(value_conds))[:2]})")
+                        if isinstance(st_, ast.Dict) and any(isinstance(k, ast.Constant) and k.value == cname for k in st_.keys):
+                            found_store = True
+                site_c = f"{ci.file}:{c.lineno} {ci.name}.partial_scope"
+                what_c = f"{ci.name}.partial_scope declares the constant name `{cname}` only if every render binds it whenever the tag has that shape"
+                if not found_store:
+                    problems_c.append(f"no render method stores the key {cname!r}")
+                if problems_c:
+                    res.fail("C11.R3b", file=ci.file, line=c.lineno, qualname=f"{ci.name}.partial_scope", construct=f"{ci.name}.partial_scope declares `{cname}` although the render binds it only for some values", message=f"{ci.name}.partial_scope() declares `{cname}` as bound inside the partial, but {problems_c[0]}: for other data the partial looks `{cname}` up in the globals and analyze() does not report it", what=what_c)
+                else:
+                    res.ok("C11.R3b", site_c, what_c, "stored under conditions on the tag's fields only")
+                continue
             site = f"{ci.file}:{c.lineno} {ci.name}.partial_scope"
             what = f"{ci.name}.partial_scope declares `{norm(c.args[0], 50)}` only where the render stores that key"
             if required is None:
